@@ -148,7 +148,7 @@ func nilIfaceRule(c *Check, rule string) {
 			continue
 		}
 		fa := c.P.FA(fn)
-		for _, cs := range c.P.CallsIn(fn) {
+		for _, cs := range c.P.CallsInOwn(fn) {
 			cc := cs.Ins.Common()
 			if !cc.IsInvoke() {
 				continue
